@@ -12,3 +12,60 @@ try:
 except NameError:
     text_type = str
 mod_alias = lena.beta.util                  # a module-level alias of a module
+
+
+# ---- locals that are certainly unbound where they are read (UnboundLocalError, a NameError) -----------------
+def dead_after_except(path):
+    try:
+        open(path).close()
+    except OSError as err:                  # Python 3 deletes `err` at the end of this clause
+        pass
+    else:
+        return None
+    return "failed: {}".format(err)         # VIOLATES on purpose: unbound on every path that gets here
+
+
+def dead_after_del(k):
+    tmp = k + 1
+    del tmp
+    return tmp                              # VIOLATES on purpose
+
+
+def dead_before_binding(k):
+    if k:
+        total = total + k                   # VIOLATES on purpose: read before anything has bound it
+    total = 0
+    return total
+
+
+def fine_rebound_after_except(path):
+    err = None
+    try:
+        open(path).close()
+    except OSError as err:
+        pass
+    try:
+        return err                          # certainly unbound on the handler path, bound on the other: not listed
+    except NameError:
+        return None
+
+
+def fine_conditional(k, path):
+    if k:
+        y = 1
+    for z in range(k):
+        pass
+    with open(path) as fh:
+        w = fh.read()
+    try:
+        v = int(w)
+    except ValueError as e:
+        msg = str(e)
+        e = None
+        return msg, e
+    finally:
+        k = None
+    while True:
+        u = 1
+        break
+    return y, z, w, v, u                    # conditionally bound (y, z) or bound: never listed
